@@ -71,7 +71,7 @@ func runC06(c *Check) {
 		if pk == nil || pk.Pkg.Path() != rootPath+"/block" {
 			continue
 		}
-		if gn := genericName(fn.String()); gn != fn.String() {
+		if gn := genericName(fnName(fn)); gn != fnName(fn) {
 			if seenGeneric[gn] {
 				continue // one representative per generic body
 			}
@@ -598,7 +598,7 @@ func rulePendingRange(c *Check, p *Prog) {
 	// R7: initial height
 	usesInitial := false
 	for _, f := range p.Funcs {
-		if genericName(f.String()) == "(*"+rootPath+"/block.pendingBase[_]).init" || genericName(f.String()) == rootPath+"/block.newPendingBase[_]" || f == gp {
+		if genericName(fnName(f)) == "(*"+rootPath+"/block.pendingBase[_]).init" || genericName(fnName(f)) == rootPath+"/block.newPendingBase[_]" || f == gp {
 			for _, b := range f.Blocks {
 				for _, in := range b.Instrs {
 					if fa, ok := in.(*ssa.FieldAddr); ok {
